@@ -267,7 +267,10 @@ def snap(q):
     if not isinstance(q, Quantity):
         return ("plain", copy.deepcopy(q))
     # units as reported AND the exponents behind them (repr of the base units): the rendered string is cached
-    return (_canon_val(copy.deepcopy(q.value())), (q.units(), repr(q.baseunits)), _canon_val(copy.deepcopy(q.abse())))
+    # ... and the number types of the magnitude and of the unit factor (a float quantity must not turn into a Decimal one)
+    return (_canon_val(copy.deepcopy(q.value())),
+            (q.units(), repr(q.baseunits), type(q.magnitude.value).__name__, type(q.baseunits.magnitude).__name__),
+            _canon_val(copy.deepcopy(q.abse())))
 
 
 def diff(before, q):
@@ -365,6 +368,14 @@ def check_binary(case, v):
             r = left == right
     except Exception:
         raised = True
+    # read-only queries afterwards (each operand reported in the other's units) belong to "reporting": they must not
+    # change anything either
+    for o, other in ((A, B), (B, A)):
+        if isinstance(o, Quantity) and isinstance(other, Quantity):
+            try:
+                o.value(other.units())
+            except Exception:
+                pass
     for name, s, o in (("left" if not case["swap"] else "right", sa, A), ("right" if not case["swap"] else "left", sb, B)):
         d = diff(s, o)
         if d:
